@@ -138,9 +138,11 @@ type Half struct {
 
 	cutAt   int64 // -1 = none
 	cutKind CutKind
+	cutErr  error // with CutRST: returned verbatim by the reader instead of ECONNRESET
 
 	werrAfter int64 // -1 = none; writes fail once this many bytes were accepted
 	werr      error
+	werrRaw   bool // return werr verbatim (not wrapped in a *net.OpError)
 
 	rewrite func(off int64, p []byte) []byte
 
@@ -218,7 +220,17 @@ func (h *Half) SetWindow(n int)         { h.mu.Lock(); h.window = n; h.mu.Unlock
 // kind.  Bytes beyond the cut are never delivered.
 func (h *Half) SetCut(at int64, kind CutKind) {
 	h.mu.Lock()
-	h.cutAt, h.cutKind = at, kind
+	h.cutAt, h.cutKind, h.cutErr = at, kind, nil
+	h.mu.Unlock()
+	h.cond.Broadcast()
+}
+
+// SetCutErr is SetCut(at, CutRST) with a chosen error value: once `at` bytes
+// have been delivered the reader's Read returns err verbatim (sentinel errors
+// such as io.ErrClosedPipe or a wrapped net.ErrClosed included).
+func (h *Half) SetCutErr(at int64, err error) {
+	h.mu.Lock()
+	h.cutAt, h.cutKind, h.cutErr = at, CutRST, err
 	h.mu.Unlock()
 	h.cond.Broadcast()
 }
@@ -226,7 +238,14 @@ func (h *Half) SetCut(at int64, kind CutKind) {
 // SetWriteFault makes writes fail with err once `after` bytes were accepted.
 func (h *Half) SetWriteFault(after int64, err error) {
 	h.mu.Lock()
-	h.werrAfter, h.werr = after, err
+	h.werrAfter, h.werr, h.werrRaw = after, err, false
+	h.mu.Unlock()
+}
+
+// SetWriteFaultRaw is SetWriteFault with err returned verbatim.
+func (h *Half) SetWriteFaultRaw(after int64, err error) {
+	h.mu.Lock()
+	h.werrAfter, h.werr, h.werrRaw = after, err, true
 	h.mu.Unlock()
 }
 
@@ -362,7 +381,7 @@ func (c *Conn) readLocked(p []byte) (int, error) {
 						case CutEOF:
 							return n, io.EOF
 						case CutRST:
-							return n, opErr("read", c, syscall.ECONNRESET)
+							return n, h.rstErr(c)
 						}
 					} else if h.wclosed && len(h.buf) == 0 {
 						return n, io.EOF
@@ -375,7 +394,7 @@ func (c *Conn) readLocked(p []byte) (int, error) {
 				case CutEOF:
 					return 0, io.EOF
 				case CutRST:
-					return 0, opErr("read", c, syscall.ECONNRESET)
+					return 0, h.rstErr(c)
 				}
 				// CutSilence: fall through to wait.
 			} else if h.wclosed {
@@ -384,6 +403,13 @@ func (c *Conn) readLocked(p []byte) (int, error) {
 		}
 		h.cond.Wait()
 	}
+}
+
+func (h *Half) rstErr(c *Conn) error {
+	if h.cutErr != nil {
+		return h.cutErr
+	}
+	return opErr("read", c, syscall.ECONNRESET)
 }
 
 func (c *Conn) Write(p []byte) (int, error) {
@@ -407,6 +433,9 @@ func (c *Conn) Write(p []byte) (int, error) {
 			return total, opErr("write", c, syscall.ECONNRESET)
 		}
 		if h.werrAfter >= 0 && h.written >= h.werrAfter {
+			if h.werrRaw {
+				return total, h.werr
+			}
 			return total, opErr("write", c, h.werr)
 		}
 		if !dl.IsZero() && !time.Now().Before(dl) {
